@@ -23,6 +23,7 @@ func NewLuaDecoder(prefs LuaPreferences) Decoder {
 }
 
 func (dec *luaDecoder) Init(reader io.Reader) error {
+	verifYield("decoder.Init")
 	dec.reader = reader
 	return nil
 }
@@ -145,6 +146,7 @@ func (dec *luaDecoder) decideTopLevelNode(ls *lua.LState) *CandidateNode {
 }
 
 func (dec *luaDecoder) Decode() (*CandidateNode, error) {
+	verifYield("decoder.Decode")
 	if dec.finished {
 		return nil, io.EOF
 	}
